@@ -29,6 +29,9 @@ pub enum T {
     GetOther,
     SetBig,
     AppendBig,
+    DelOther,
+    /// store under a key nobody else uses and that is absent initially (exact accounting)
+    SetNew,
 }
 
 pub fn instantiate(t: T, client: usize, key: &[u8], other: &[u8]) -> Cmd {
@@ -52,6 +55,8 @@ pub fn instantiate(t: T, client: usize, key: &[u8], other: &[u8]) -> Cmd {
         T::GetOther => Cmd::Get { key: other.to_vec(), with_key: false, quiet: false },
         T::SetBig => Cmd::Store { kind: StoreKind::Set, key: k, value: vec![b'B'; 40], flags: 70, ttl: 0, cas: CasArg::Zero, quiet: false },
         T::AppendBig => Cmd::Concat { append: true, key: k, value: vec![b'b'; 30], cas: CasArg::Zero, quiet: false },
+        T::DelOther => Cmd::Delete { key: other.to_vec(), cas: CasArg::Zero, quiet: false },
+        T::SetNew => Cmd::Store { kind: StoreKind::Set, key: format!("new{}", client).into_bytes(), value: tag("N"), flags: 80, ttl: 0, cas: CasArg::Zero, quiet: false },
     }
 }
 
@@ -105,6 +110,7 @@ fn opts(max_bound: u32, tier: Tier) -> SchedOpts {
         max_bound,
         check_lin: true,
         c14: false,
+        c15: false,
         max_steps: 20_000,
         max_execs: if tier == Tier::Quick { 400_000 } else { 20_000_000 },
     }
@@ -310,6 +316,33 @@ pub fn c14_families(tier: Tier) -> Vec<Family> {
                 fams.push(Family { name: format!("3x1/L={}/{}", limit, kname), programs: p3, opts: SchedOpts { max_bound: if tier == Tier::Quick { 1 } else { 2 }, ..o } });
             }
         }
+    }
+    fams
+}
+
+/// C15, concurrent part: programs whose commands account exactly when run alone (deletes, stores
+/// under fresh keys, reads) - the accounting must still be exact under every interleaving.
+pub fn c15_families(tier: Tier) -> Vec<Family> {
+    let (same, diff) = sibling_keys(K);
+    let mut fams = vec![];
+    let alpha = [T::Del, T::DelOther, T::SetNew, T::Get, T::DelCur];
+    let mut o = opts(if tier == Tier::Quick { 3 } else { 64 }, tier);
+    o.check_lin = false;
+    o.c15 = true;
+    for (kname, other) in [("same-shard", &same), ("other-shard", &diff)] {
+        let keys = vec![K.to_vec(), other.clone()];
+        let mut p2 = vec![];
+        let mut p3 = vec![];
+        for init in [Init::Present, Init::Absent] {
+            for ms in multisets(&alpha, 2) {
+                p2.push(mk(init, ms.iter().map(|t| vec![*t]).collect(), K, other, keys.clone(), Policy::Random(4000)));
+            }
+            for ms in multisets(&alpha, 3) {
+                p3.push(mk(init, ms.iter().map(|t| vec![*t]).collect(), K, other, keys.clone(), Policy::Random(4000)));
+            }
+        }
+        fams.push(Family { name: format!("2x1/{}", kname), programs: p2, opts: o });
+        fams.push(Family { name: format!("3x1/{}", kname), programs: p3, opts: SchedOpts { max_bound: if tier == Tier::Quick { 2 } else { 3 }, ..o } });
     }
     fams
 }
